@@ -235,14 +235,12 @@ def idbRW (aspect : String) (ips : List IPkg) : String :=
       let impl := view f
       if wf then
         let tg (fs : List FileRec) := fs.map fun x => { x with mode := if x.isDir then 0o755 else 0o644, uid := 0, gid := 0 }
-        let td (fs : List FileRec) := fs.map fun x => { x with mode := x.mode.emod 512 }
+        -- F16d is repaired: no class explains a mode that comes back without its setuid/setgid/sticky bits
         let th (fs : List FileRec) := fs.filter fun x => !isTopDropped fs x
         let v (t : List FileRec → List FileRec) := f (ips.map fun ip => { ip with files := t ip.files })
         let cls := firstSome [
-          if impl = v td then some "F16d" else none,
           if impl = v th then some "F16h" else none,
           if impl = v tg then some "F16g" else none,
-          if impl = v (td ∘ th) then some "F16h" else none,
           if impl = v (tg ∘ th) then some "F16g" else none]
         triple impl (f ips) (cls.getD "unlisted")
       else triple impl impl "-"
@@ -285,7 +283,8 @@ def colonSafe (t : Text) : Bool := lineSafe t && t.all (· != ':')
 def wfUserCore (u : User) : Bool :=
   colonSafe u.name && colonSafe u.password && colonSafe u.info && colonSafe u.home && colonSafe u.shell &&
   decide (u.uid < 4294967296) && decide (u.gid < 4294967296) && decide ((renderUser u).length ≤ defaultTokenMax)
-def wfUser (u : User) : Bool := wfUserCore u && (leadSpace u.name).isNone && (trailSpace u.shell).isNone
+/-- the quantifier of `passwd_roundtrip` (`WFUser`); white space at the outer ends is inside it (F16f repaired) -/
+def wfUser (u : User) : Bool := wfUserCore u
 
 /-- the quantifier of `group_roundtrip` (`WFGroup`): member names free of `,` `:` LF CR, any number of
 members — none included — except the list `[""]`, which is written like the empty list -/
@@ -293,8 +292,7 @@ def memberSafe (t : Text) : Bool := colonSafe t && t.all (· != ',')
 def wfGroupCore (g : Group) : Bool :=
   colonSafe g.name && colonSafe g.password && g.members.all memberSafe && g.members != [[]] && decide (g.gid < 4294967296) &&
   decide ((renderGroup g).length ≤ defaultTokenMax)
-def wfGroup (g : Group) : Bool :=
-  wfGroupCore g && (leadSpace g.name).isNone && (trailSpace (joinWith [','] g.members)).isNone
+def wfGroup (g : Group) : Bool := wfGroupCore g
 
 def pwRW (us : List User) : String :=
   let text := writeUsers us
@@ -302,10 +300,8 @@ def pwRW (us : List User) : String :=
     | some l => hexS text ++ "|" ++ ";".intercalate (l.map wUser) ++ "|" ++ hexS (writeUsers l)
     | none => hexS text ++ "|err"
   let impl := out (loadUsers text)
+  -- F16f is repaired: padded fields must come back as written (no class explains a difference)
   if us.all wfUser then triple impl (out (some us)) "unlisted"
-  else if us.all wfUserCore then
-    -- F16f: Parse trims the line; the spec still demands the fields back
-    triple impl (out (some us)) "F16f"
   else triple impl impl "-"
 
 def grRW (gs : List Group) : String :=
@@ -316,7 +312,6 @@ def grRW (gs : List Group) : String :=
   let impl := out (loadGroups text)
   -- F16e is repaired: a group without members must come back without members (no class explains a difference)
   if gs.all wfGroup then triple impl (out (some gs)) "unlisted"
-  else if gs.all wfGroupCore then triple impl (out (some gs)) "F16f"
   else triple impl impl "-"
 
 def handle (args : List String) : Option String :=
